@@ -47,7 +47,7 @@ func (o c15op) String() string {
 }
 
 var c15addrs = []string{"10.0.0.1:1", "10.0.0.2:1"}
-var c15lists = []string{"", "aM", "aM,bM", "aM,bB", "aB", "bM"}
+var c15lists = []string{"", "aM", "aM,bM", "aM,bB", "aB", "bM", "aM,aB"}
 
 func c15short(addr string) string {
 	if addr == c15addrs[0] {
@@ -389,7 +389,8 @@ func c15enabled(w *c15world, maxObjs int) []c15op {
 		for _, l := range c15lists {
 			ops = append(ops, c15op{Kind: "ReplaceAll", List: l})
 		}
-		for _, l := range []string{"aM,bM", "bM,aM", "aM,bB", "bB,aM"} {
+		// (also one address twice in one call, as two objects of the same or of different types)
+		for _, l := range []string{"aM,bM", "bM,aM", "aM,bB", "bB,aM", "aM,aB", "aB,aM", "aM,aM"} {
 			ops = append(ops, c15op{Kind: "AddBatch", List: l}, c15op{Kind: "RemoveBatch", List: l})
 		}
 	}
